@@ -112,12 +112,12 @@ def stepRaw (i : Nat) (st : St) : DOp → St × List (String × Json)
     (⟨y'.cache, y'.ptr, y'.next⟩, [("o", Json.str "-")])
   | .noop => (st, [("o", Json.str "-")])
 
-def stepN (i : Nat) (st : St) : DOp → St × List (String × Json)
+def stepN (fb : KeyShape) (i : Nat) (st : St) : DOp → St × List (String × Json)
   | .get slot q op n =>
     match st.cache with
     | none => (st, [("o", Json.str "bypass"), ("built", Json.num i)])     -- nil receiver: planAndValidate
     | some c =>
-      let (c', out) := stepNorm (A := Unit) (fun _ _ _ => n) (fun _ _ _ => i) (fun _ _ _ => i) (fun _ _ _ => i)
+      let (c', out) := stepNorm (A := Unit) fb (fun _ _ _ => n) (fun _ _ _ => i) (fun _ _ _ => i) (fun _ _ _ => i)
         (fun _ => false) c (.get (st.ptr slot) q op)
       let o := match out with
         | some (r, oc) => [("o", Json.str (outcomeStr oc)), ("built", Json.num r.res), ("synthOwn", Json.bool r.synth.isSome)]
@@ -127,11 +127,11 @@ def stepN (i : Nat) (st : St) : DOp → St × List (String × Json)
   | .replace slot => ({ st with ptr := fun j => if j = slot then st.next else st.ptr j, next := st.next + 1 }, [("o", Json.str "-")])
   | .noop => (st, [("o", Json.str "-")])
 
-def runAll (norm : Bool) (each : Bool) : Nat → St → List DOp → List Json → St × List Json
+def runAll (fb : KeyShape) (norm : Bool) (each : Bool) : Nat → St → List DOp → List Json → St × List Json
   | _, st, [], acc => (st, acc.reverse)
   | i, st, o :: os, acc =>
-    let (st', fields) := if norm then stepN i st o else stepRaw i st o
-    runAll norm each (i + 1) st' os (Json.mkObj (fields ++ snapshot st'.cache each) :: acc)
+    let (st', fields) := if norm then stepN fb i st o else stepRaw i st o
+    runAll fb norm each (i + 1) st' os (Json.mkObj (fields ++ snapshot st'.cache each) :: acc)
 
 def handleHistory (j : Json) : Except String Json := do
   let mode ← Driver.getStr j "mode"
@@ -145,7 +145,15 @@ def handleHistory (j : Json) : Except String Json := do
   let norm := mode == "norm"
   let c0 : Option (Cache Nat Nat) := if isNil then none else some (newPlanCache ⟨me, mb, norm⟩)
   let st0 : St := ⟨c0, fun i => i, 1000⟩
-  let (st, steps) := runAll norm each 0 st0 ops []
+  -- which key construction the code under test uses (found out by the harness): "coded" = operationName + "\x00" +
+  -- normKey with the fallback "raw:" + hex of FNV-1a-64 of the query; "repaired" = after D-06k.diff: length-prefixed
+  -- operation name, fallback "raw:" + query
+  let fb ← match (Driver.getStr cfg "keyShape").toOption with
+    | none => pure keyShapeCoded
+    | some "coded" => pure keyShapeCoded
+    | some "repaired" => pure keyShapeRepaired
+    | some o => throw s!"unknown key shape {o}"
+  let (st, steps) := runAll fb norm each 0 st0 ops []
   return Json.mkObj ([("steps", Json.arr steps.toArray)] ++ snapshot st.cache true)
 
 /-! ### fingerprint -/
@@ -232,6 +240,7 @@ def handleNorm (j : Json) : Except String Json := do
   | .rootError => return Json.mkObj [("out", "rooterr")]
   | .ok d synth =>
     return Json.mkObj [("out", "ok"), ("printed", Json.str (GqlModel.Printer.print d)),
+      ("printedKey", Json.str (enhex (GqlModel.Normalize.printedKey d))),
       ("synth", Json.mkObj (synth.map (fun (k, v) => (k, Driver.SchemaJson.encJVal v))))]
 
 def handle (j : Json) : Except String Json :=
